@@ -290,6 +290,8 @@ func init() {
 			}
 			emit(ops)
 		}
+		// the fault table: what convertPanic and VM.Run make of the raw panic of each entry
+		convCases(c)
 		// the escapers alone
 		for i := 0; i < c.N/2; i++ {
 			s := randURLString(c) + randURLString(c)
